@@ -56,7 +56,7 @@ def with_extra(ctx, tag, make_specs, kw=None):
     return ctx._pool
 
 
-def scripted_controller_runs(ctx, tag, n, want=("ctl",), force_options=None, weights=None):
+def scripted_controller_runs(ctx, tag, n, want=("ctl",), force_options=None, weights=None, plan=None):
     """Runs in which every scalar improvement value is replaced by a scripted one (oracle scripting): the loop controller and the mesh
     rule are driven through arbitrary sequences of search/poll outcomes and stall flags.  Only the controller-level checks (C03, C13) read them."""
     rng = ctx.sub_rng(tag)
@@ -73,7 +73,9 @@ def scripted_controller_runs(ctx, tag, n, want=("ctl",), force_options=None, wei
         if force_options:
             sp["options"].update(force_options)
         kw = {"ei_script": {"seed": rng.randint(0, 10 ** 6), "weights": w}, "want": tuple(want)}
-        if i % 3 == 2:
+        if plan:
+            kw["ei_script"]["plan"] = plan(rng) if callable(plan) else plan
+        if i % 3 == 2 and not plan:
             # the candidate generator is scripted too: from the K-th search step on the strategy proposes nothing (as when every ES
             # candidate is infeasible), at any position within a round of searches; a loop that stops progressing is cut at iter_cap
             kw["es_script"] = {"empty_after": rng.choice([0, 1, 2, 3, 4, 5, 6, 9])}
